@@ -15,6 +15,7 @@ import (
 	"sort"
 	"strconv"
 	"strings"
+	"sync"
 	"time"
 
 	"github.com/nuetzliches/hookaido/internal/app"
@@ -49,6 +50,7 @@ type ReloadProbe struct {
 	SignKey string // HMAC secret to sign with ("" = unsigned)
 	User    string // basic auth
 	Pass    string
+	Keys    map[string]string // deliver probes: candidate signing keys by name
 }
 
 // ReloadPair is an (old, new) configuration pair with probes that tell them apart.
@@ -129,10 +131,13 @@ func bootReload(scratch, text string) (*reloadInst, error) {
 		return nil, err
 	}
 	cfgPath := filepath.Join(dir, "Hookaidofile")
+	if strings.Contains(text, "SINK") {
+		text = strings.ReplaceAll(text, "SINK", sinkURL())
+	}
 	if err := os.WriteFile(cfgPath, []byte(text), 0o600); err != nil {
 		return nil, err
 	}
-	inst, err := app.VerifBoot(app.VerifOptions{ConfigPath: cfgPath, DBPath: filepath.Join(dir, "q.db")})
+	inst, err := app.VerifBoot(app.VerifOptions{ConfigPath: cfgPath, DBPath: filepath.Join(dir, "q.db"), HTTPDispatcher: strings.Contains(text, "deliver \"")})
 	if err != nil {
 		os.RemoveAll(dir)
 		return nil, fmt.Errorf("boot: %w\n%s", err, text)
@@ -174,6 +179,44 @@ func (r *reloadInst) answer(p ReloadProbe) string {
 		first := r.answer(q)
 		second := r.answer(q)
 		return first + " ; " + second
+	case "deliver":
+		return r.deliverAnswer(p)
+	case "pulln":
+		// four ready messages, one dequeue asking for four: the answer shows the batch cap in force
+		rt := "/" + strings.Split(strings.TrimPrefix(p.Path, "/pull/"), "/")[0]
+		for i := 0; i < 4; i++ {
+			_ = r.mem.Enqueue(queue.Envelope{ID: fmt.Sprintf("n-%d-%d", probeSerial, i), Route: rt, Target: "pull", Payload: []byte("n")})
+		}
+		req := httptest.NewRequest(http.MethodPost, p.Path, strings.NewReader(`{"batch":4,"lease_ttl":"1s"}`))
+		req.Header.Set("Authorization", "Bearer "+p.Token)
+		req.Header.Set("Content-Type", "application/json")
+		rec := httptest.NewRecorder()
+		r.inst.Handlers["pull_api"].ServeHTTP(rec, req)
+		var resp struct {
+			Items []struct {
+				LeaseID string `json:"lease_id"`
+			} `json:"items"`
+		}
+		_ = json.Unmarshal(rec.Body.Bytes(), &resp)
+		ids := []string{}
+		for _, it := range resp.Items {
+			ids = append(ids, it.LeaseID)
+		}
+		b, _ := json.Marshal(map[string]any{"lease_ids": ids})
+		areq := httptest.NewRequest(http.MethodPost, strings.TrimSuffix(p.Path, "dequeue")+"ack", bytes.NewReader(b))
+		areq.Header.Set("Authorization", "Bearer "+p.Token)
+		r.inst.Handlers["pull_api"].ServeHTTP(httptest.NewRecorder(), areq)
+		// drop whatever is left so that the next probe starts from the same backlog
+		for {
+			rr, err := r.mem.Dequeue(queue.DequeueRequest{Route: rt, Target: "pull", Batch: 50, LeaseTTL: time.Second})
+			if err != nil || len(rr.Items) == 0 {
+				break
+			}
+			for _, it := range rr.Items {
+				_ = r.mem.Ack(it.LeaseID)
+			}
+		}
+		return fmt.Sprintf("status=%d items=%d", rec.Code, len(resp.Items))
 	case "ingress":
 		before := map[string]bool{}
 		for _, row := range r.mem.VerifDump() {
@@ -439,4 +482,200 @@ func ReloadPilot(w io.Writer, scratch string) error {
 		}
 	}
 	return nil
+}
+
+// frozen settings -----------------------------------------------------------
+//
+// docs/configuration.md "Restart Required": a reload that touches one of these settings is refused as a whole.
+// The oracle is the same differential one: whatever the reload answers, afterwards every probe must be served
+// purely by the configuration the instance claims to run (old when refused, new when applied).
+
+type sinkHit struct {
+	Path   string
+	Header http.Header
+	Body   []byte
+}
+
+var (
+	sinkOnce sync.Once
+	sinkSrv  *httptest.Server
+	sinkMu   sync.Mutex
+	sinkHits = map[string]sinkHit{}
+)
+
+func sinkURL() string {
+	sinkOnce.Do(func() {
+		sinkSrv = httptest.NewServer(http.HandlerFunc(func(w http.ResponseWriter, r *http.Request) {
+			b, _ := io.ReadAll(r.Body)
+			sinkMu.Lock()
+			sinkHits[string(b)] = sinkHit{Path: r.URL.Path, Header: r.Header.Clone(), Body: b}
+			sinkMu.Unlock()
+			w.WriteHeader(204)
+		}))
+	})
+	return sinkSrv.URL
+}
+
+const frozenDefaults = `defaults {
+  egress {
+    https_only off
+    dns_rebind_protection off
+  }
+}
+`
+
+func secretsBlock(until1, from2, val1 string) string {
+	u := ""
+	if until1 != "" {
+		u = "\n    valid_until \"" + until1 + "\""
+	}
+	return "secrets {\n  secret \"S1\" {\n    value raw:" + val1 + "\n    valid_from \"2020-01-01T00:00:00Z\"" + u + "\n  }\n  secret \"S2\" {\n    value raw:k2\n    valid_from \"" + from2 + "\"\n  }\n}\n"
+}
+
+func pushRoute(urlPath string, lines ...string) string {
+	return "/push {\n  queue { backend memory }\n  deliver \"SINK" + urlPath + "\" {\n    retry exponential max 3 base 1s cap 2s\n    timeout 2s\n    " + strings.Join(lines, "\n    ") + "\n  }\n}\n"
+}
+
+// FrozenPairs edit exactly one restart-required setting.
+func FrozenPairs() []ReloadPair {
+	keys := map[string]string{"S1": "k1", "S2": "k2", "S1b": "k3"}
+	dl := []ReloadProbe{{Name: "deliver", Kind: "deliver", Method: "POST", Path: "/push", Keys: keys}}
+	refs := []string{`sign hmac secret_ref "S1"`, `sign hmac secret_ref "S2"`}
+	hdr := reloadHeader + frozenDefaults
+	big := strings.Repeat("x", 200)
+	withDefaults := func(line string) string { return reloadHeader + "defaults {\n  " + line + "\n}\n" }
+	return []ReloadPair{
+		{Name: "sign_valid_until_moved", Probes: dl,
+			Old: hdr + secretsBlock("2021-06-01T00:00:00Z", "2021-01-01T00:00:00Z", "k1") + pushRoute("/hook/a", append(refs, "sign secret_selection oldest_valid")...),
+			New: hdr + secretsBlock("2099-06-01T00:00:00Z", "2021-01-01T00:00:00Z", "k1") + pushRoute("/hook/a", append(refs, "sign secret_selection oldest_valid")...)},
+		{Name: "sign_valid_until_removed", Probes: dl,
+			Old: hdr + secretsBlock("2021-06-01T00:00:00Z", "2021-01-01T00:00:00Z", "k1") + pushRoute("/hook/a", append(refs, "sign secret_selection oldest_valid")...),
+			New: hdr + secretsBlock("", "2021-01-01T00:00:00Z", "k1") + pushRoute("/hook/a", append(refs, "sign secret_selection oldest_valid")...)},
+		{Name: "sign_valid_from_moved", Probes: dl,
+			Old: hdr + secretsBlock("", "2021-01-01T00:00:00Z", "k1") + pushRoute("/hook/a", refs...),
+			New: hdr + secretsBlock("", "2098-01-01T00:00:00Z", "k1") + pushRoute("/hook/a", refs...)},
+		{Name: "sign_value_changed", Probes: dl,
+			Old: hdr + secretsBlock("", "2021-01-01T00:00:00Z", "k1") + pushRoute("/hook/a", refs[0]),
+			New: hdr + secretsBlock("", "2021-01-01T00:00:00Z", "k3") + pushRoute("/hook/a", refs[0])},
+		{Name: "sign_selection_changed", Probes: dl,
+			Old: hdr + secretsBlock("", "2021-01-01T00:00:00Z", "k1") + pushRoute("/hook/a", append(refs, "sign secret_selection newest_valid")...),
+			New: hdr + secretsBlock("", "2021-01-01T00:00:00Z", "k1") + pushRoute("/hook/a", append(refs, "sign secret_selection oldest_valid")...)},
+		{Name: "sign_header_renamed", Probes: dl,
+			Old: hdr + pushRoute("/hook/a", "sign hmac raw:k1"),
+			New: hdr + pushRoute("/hook/a", "sign hmac raw:k1", `sign signature_header "X-Sig-B"`)},
+		{Name: "sign_inline_secret_changed", Probes: dl,
+			Old: hdr + pushRoute("/hook/a", "sign hmac raw:k1"),
+			New: hdr + pushRoute("/hook/a", "sign hmac raw:k2")},
+		{Name: "sign_removed", Probes: dl,
+			Old: hdr + pushRoute("/hook/a", "sign hmac raw:k1"),
+			New: hdr + pushRoute("/hook/a")},
+		{Name: "deliver_url_changed", Probes: dl,
+			Old: hdr + pushRoute("/hook/a"),
+			New: hdr + pushRoute("/hook/b")},
+		{Name: "egress_deny_added", Probes: dl,
+			Old: hdr + pushRoute("/hook/a"),
+			New: reloadHeader + "defaults {\n  egress {\n    https_only off\n    dns_rebind_protection off\n    deny \"127.0.0.0/8\"\n  }\n}\n" + pushRoute("/hook/a")},
+		{Name: "default_max_body_raised",
+			Old:    withDefaults("max_body 64") + route("/a", "pull { path /pull/a }"),
+			New:    withDefaults("max_body 4kb") + route("/a", "pull { path /pull/a }"),
+			Probes: []ReloadProbe{{Name: "big", Kind: "ingress", Method: "POST", Path: "/a", Body: big}}},
+		{Name: "max_batch_lowered",
+			Old:    strings.Replace(reloadHeader, "auth token raw:tok-global\n", "auth token raw:tok-global\n  max_batch 4\n", 1) + route("/a", "pull { path /pull/a }"),
+			New:    strings.Replace(reloadHeader, "auth token raw:tok-global\n", "auth token raw:tok-global\n  max_batch 2\n", 1) + route("/a", "pull { path /pull/a }"),
+			Probes: []ReloadProbe{{Name: "batch4", Kind: "pulln", Path: "/pull/a/dequeue", Token: "tok-global"}}},
+		{Name: "max_depth_raised",
+			Old:    reloadHeader + "queue_limits {\n  max_depth 1\n}\n" + route("/a", "pull { path /pull/a }"),
+			New:    reloadHeader + "queue_limits {\n  max_depth 100\n}\n" + route("/a", "pull { path /pull/a }"),
+			Probes: []ReloadProbe{{Name: "post", Kind: "ingress", Method: "POST", Path: "/a", Body: "{}"}}},
+	}
+}
+
+// deliverAnswer sends one message into the push route and reports how it arrived at the sink.
+func (r *reloadInst) deliverAnswer(p ReloadProbe) string {
+	tok := fmt.Sprintf("tok-%d-%d", os.Getpid(), probeSerial)
+	req := httptest.NewRequest(p.Method, p.Path, strings.NewReader(tok))
+	req.RemoteAddr = "192.0.2.10:4000"
+	rec := httptest.NewRecorder()
+	r.inst.Handlers["ingress"].ServeHTTP(rec, req)
+	if rec.Code != 202 {
+		return fmt.Sprintf("status=%d", rec.Code)
+	}
+	deadline := time.Now().Add(2500 * time.Millisecond)
+	for time.Now().Before(deadline) {
+		sinkMu.Lock()
+		h, ok := sinkHits[tok]
+		sinkMu.Unlock()
+		if ok {
+			var custom []string
+			var ts string
+			for k, v := range h.Header {
+				if strings.HasPrefix(k, "X-") && len(v) > 0 {
+					if strings.Contains(strings.ToLower(k), "timestamp") {
+						ts = v[0]
+					}
+					if strings.Contains(strings.ToLower(k), "sig") || strings.Contains(strings.ToLower(k), "timestamp") {
+						custom = append(custom, k)
+					}
+				}
+			}
+			sort.Strings(custom)
+			by := "none"
+			sum := sha256.Sum256(h.Body)
+			var names []string
+			for name := range p.Keys {
+				names = append(names, name)
+			}
+			sort.Strings(names)
+			for _, name := range names {
+				mac := hmac.New(sha256.New, []byte(p.Keys[name]))
+				mac.Write([]byte(fmt.Sprintf("POST\n%s\n%s\n%s", h.Path, ts, hex.EncodeToString(sum[:]))))
+				want := hex.EncodeToString(mac.Sum(nil))
+				for _, v := range h.Header {
+					if len(v) > 0 && strings.Contains(v[0], want) {
+						by = name
+					}
+				}
+			}
+			return fmt.Sprintf("delivered path=%s headers=%s signed_by=%s", h.Path, strings.Join(custom, ","), by)
+		}
+		time.Sleep(20 * time.Millisecond)
+	}
+	return "undelivered"
+}
+
+// FrozenReload reloads from Old to New and compares every probe before and after with the measured answers.
+func FrozenReload(scratch string, pair ReloadPair) (map[string]any, error) {
+	all := func(f func(p ReloadProbe) (string, error)) (string, error) {
+		var parts []string
+		for _, p := range pair.Probes {
+			a, err := f(p)
+			if err != nil {
+				return "", err
+			}
+			parts = append(parts, p.Name+":"+a)
+		}
+		return strings.Join(parts, " | "), nil
+	}
+	oldA, err := all(func(p ReloadProbe) (string, error) { return staticAnswer(scratch, pair.Old, p) })
+	if err != nil {
+		return nil, err
+	}
+	newA, err := all(func(p ReloadProbe) (string, error) { return staticAnswer(scratch, pair.New, p) })
+	if err != nil {
+		return nil, err
+	}
+	r, err := bootReload(scratch, pair.Old)
+	if err != nil {
+		return nil, err
+	}
+	defer r.close()
+	r.seed(0)
+	before, _ := all(func(p ReloadProbe) (string, error) { return r.answer(p), nil })
+	if err := os.WriteFile(r.cfgPath, []byte(strings.ReplaceAll(pair.New, "SINK", sinkURL())), 0o600); err != nil {
+		return nil, err
+	}
+	ok := r.inst.Reload("verif")
+	r.seed(1)
+	after, _ := all(func(p ReloadProbe) (string, error) { return r.answer(p), nil })
+	return map[string]any{"ev": "FrozenReload", "pair": pair.Name, "ok": ok, "before": before, "after": after, "old": oldA, "new": newA}, nil
 }
